@@ -232,6 +232,7 @@ def run_c15(ck, fb, fbd):
     get_label_rule(ck, fb)
     opposite_rule(ck, fb)
     four_vertices_rule(ck, fb)
+    tet_vertex_iter_rule(ck, fb)
     # split_edge / split_face / collapse_edge delete cells in deferred mode and add new ones on the same halffaces: the
     # delete core must not reset a halfface's incident cell that already names the replacement (shared with C01/C02/C04)
     from . import lockstep
@@ -376,6 +377,38 @@ def four_vertices_rule(ck, fb):
         if not preds_true or not all(count_fact(pb, True) for pb in preds_true):
             reach_ok = False
     (ck.ok if reach_ok else lambda r_, w_, t_: ck.violate(r_, w_, t_, "C15.fourvertices:bypass"))("C15.fourvertices", f.where, "with the check requested the base implementation is reached only after the four-vertex test passed")
+
+
+def tet_vertex_iter_rule(ck, fb):
+    """the tet vertex iterator agrees with get_cell_vertices: slot k holds get_cell_vertices(cell)[k]"""
+    from .canon import Canon
+    ck.rule("C15.tviter", "TetVertexIter's constructor fills vertices_[k] with get_cell_vertices(cell)[k] for k = 0..3 (the same k on both sides, the iterator's own cell); another way of filling the slots is not judged")
+    cands = [f for f in fb.fns.values() if f.has_cfg and f.pq == "OpenVolumeMesh::TetVertexIter::(ctor)" and f.file.endswith(".cc")]
+    if len(cands) != 1:
+        raise AnalysisBroken("anchor vanished: TetVertexIter constructor (%d candidates)" % len(cands))
+    f = cands[0]
+    cn = Canon(f)
+    pairs = []
+    other = []
+    for b, i, x in f.tops():
+        a = as_assign(x)
+        if not a or b not in f.reach():
+            continue
+        l, r = cn.s(a[0]), cn.s(a[1])
+        ml = re.fullmatch(r"vertices_\[(\d)\w*\]", l)
+        if not ml:
+            continue
+        mr = re.fullmatch(r"P\d+\.get_cell_vertices\(P0\)\[(\d)\w*\]", r)
+        if mr:
+            pairs.append((int(ml.group(1)), int(mr.group(1)), x))
+        else:
+            other.append((l, r))
+    if other or not pairs:
+        ck.cannot_judge("C15.tviter %s: the vertex slots are not filled by vertices_[k] = get_cell_vertices(cell)[k] (%s) - not judged" % (f.where, other[:2]))
+        return
+    got = sorted((k, j) for k, j, x in pairs)
+    ok = got == [(0, 0), (1, 1), (2, 2), (3, 3)]
+    (ck.ok if ok else lambda r_, w_, t_: ck.violate(r_, w_, t_, "C15.tviter:slots"))("C15.tviter", f.where, "TetVertexIter: vertices_[k] = get_cell_vertices(cell)[k] for k = 0..3 (found %s)" % got)
 
 
 def opposite_rule(ck, fb):
@@ -675,7 +708,69 @@ def a_l(x):
     return a[0] if a else x
 
 
+def hfsheet_rule(ck, fb):
+    """HalfFaceSheetHalfFaceIter: the matching halffaces of the sheet neighbours"""
+    from .canon import Canon
+    ck.rule("C16.hfsheet", "HalfFaceSheetHalfFaceIter's constructor is invalid for a boundary halfface; it fills a set with the halfedges of the OPPOSITE of the reference halfface, walks csc_iter(incident_cell(h), orientation(h, incident_cell(h))), and records a halfface H of such a neighbour exactly under the fact that a halfedge E of H is in that set, together with edge_handle(E)")
+    cands = [f for f in fb.fns.values() if f.has_cfg and f.pq == "OpenVolumeMesh::HalfFaceSheetHalfFaceIter::(ctor)" and f.file.endswith(".cc")]
+    if len(cands) != 1:
+        raise AnalysisBroken("anchor vanished: HalfFaceSheetHalfFaceIter constructor (%d)" % len(cands))
+    f = cands[0]
+    cn = Canon(f)
+    M = r"P\d+\."
+    # (0) boundary reference -> invalid
+    inval = [b for b, i, x in f.tops() if x.get("k") == "call" and cn.s(x) == "valid(false)" and b in f.reach()]
+    okb = any(any(re.fullmatch(M + r"is_boundary\(P0\)", s_) and p_ is True for s_, p_, c_ in cn.facts(b)) for b in inval)
+    (ck.ok if okb else lambda r_, w_, t_: ck.violate(r_, w_, t_, "C16.hfsheet:boundary"))("C16.hfsheet", f.where, "a boundary reference halfface gives an invalid circulator")
+    # (1) reference set
+    sets = {cn._name[vid]: vid for vid, (v, b, i) in cn.decl.items() if v.get("t", "").startswith("std::set<OpenVolumeMesh::HEH") and vid in cn._name}
+    REF = (r"%sopposite_halfface\(%shalfface\(P0\)\)\.halfedges\(\)" % (M, M), r"%shalfface\((%s)?opposite_halfface_handle\(P0\)\)\.halfedges\(\)" % (M, M))
+    refset = None
+    wrong = None
+    for nm, vid in sets.items():
+        for kind, b, i, m in cn.mods.get(vid, []):
+            if m.get("pn", "").split("::")[-1] == "insert" and len(m.get("a", [])) == 2:
+                a0, a1 = cn.s(m["a"][0]), cn.s(m["a"][1])
+                for R in REF:
+                    if re.fullmatch(R + r"\.begin\(\)", a0) and re.fullmatch(R + r"\.end\(\)", a1):
+                        refset = nm
+                if refset is None:
+                    wrong = (a0, a1)
+    if refset is None:
+        if wrong and "halfedges()" in wrong[0]:
+            ck.violate("C16.hfsheet", f.where, "the reference set holds the halfedges of the opposite of the reference halfface (found %s)" % wrong[0][:80], "C16.hfsheet:refset")
+        else:
+            ck.cannot_judge("C16.hfsheet %s: no set of the reference halfface's opposite halfedges is built - not judged" % f.where)
+        return
+    ck.ok("C16.hfsheet", f.where, "the reference set %s holds the halfedges of the opposite of the reference halfface" % refset)
+    # (2)+(3) pushes
+    CSC = r"it\d+\(%scsc_iter\(%sincident_cell\(P0\), %sorientation\(P0, %sincident_cell\(P0\)\)(, 1)?\)\)" % (M, M, M, M)
+    pushes = [(b, i, x) for b, i, x in f.tops() if x.get("k") == "call" and x.get("pn", "").split("::")[-1] in ("push_back", "emplace_back") and b in f.reach() and "HFH" in (x.get("cc") or x.get("rt") or "")]
+    if len(pushes) != 1:
+        ck.cannot_judge("C16.hfsheet %s: %d halfface push sites - not judged" % (f.where, len(pushes)))
+        return
+    b, i, x = pushes[0]
+    H = cn.s(x["a"][0])
+    okH = re.fullmatch(r"\*it\d+\((__normal_iterator\()?%scell\(\*%s\)\.halffaces\(\)\.begin\(\)\)?\)" % (M, CSC), H) or re.fullmatch(r"each\(%scell\(\*%s\)\.halffaces\(\)\)" % (M, CSC), H)
+    (ck.ok if okH else lambda r_, w_, t_: ck.violate(r_, w_, t_, "C16.hfsheet:cells"))("C16.hfsheet", f.loc(x), "the recorded halfface ranges over the halffaces of the cells of csc_iter(incident_cell(h), orientation(h, incident_cell(h))) (found %s)" % H[:110])
+    member = None
+    for s_, p_, c_ in cn.facts(b):
+        m1 = re.fullmatch(r"\(%s\.count\((.*)\) > 0\w*\)" % refset, s_)
+        m2 = re.fullmatch(r"%s\.count\((.*)\)" % refset, s_)
+        q = split_eq(s_)
+        if (m1 or m2) and p_ is True:
+            member = (m1 or m2).group(1)
+        elif q and p_ is (q[0] == "!=") and {True} == {x_.startswith(refset + ".find(") or x_ == refset + ".end()" for x_ in (q[1], q[2])}:
+            member = [x_ for x_ in (q[1], q[2]) if x_.startswith(refset + ".find(")][0][len(refset) + 6:-1]
+    okE = bool(member) and ("halfface(%s).halfedges()" % H) in member.replace("P1.", "").replace("P2.", "") or bool(member) and (H in member and "halfedges()" in member)
+    (ck.ok if okE else lambda r_, w_, t_: ck.violate(r_, w_, t_, "C16.hfsheet:member"))("C16.hfsheet", f.loc(x), "the halfface is recorded exactly when one of ITS halfedges is in the reference set (membership test on %s)" % (member or "none")[:90])
+    ce = [cn.s(y["a"][0]) for bb, ii, y in f.tops() if bb == b and y.get("k") == "call" and y.get("pn", "").split("::")[-1] in ("push_back", "emplace_back") and "EH" in (y.get("cc") or y.get("rt") or "") and "HFH" not in (y.get("cc") or y.get("rt") or "")]
+    okC = bool(member) and any(c_ in ("edge_handle(%s)" % member, "%s.edge_handle()" % member) or re.fullmatch(M + r"edge_handle\(%s\)" % re.escape(member), c_) for c_ in ce)
+    (ck.ok if okC else lambda r_, w_, t_: ck.violate(r_, w_, t_, "C16.hfsheet:edge"))("C16.hfsheet", f.loc(x), "the common edge recorded with it is the edge of that halfedge (found %s)" % [c_[:60] for c_ in ce][:1])
+
+
 def run_c16(ck, fb, fbd):
+    hfsheet_rule(ck, fb)
     from .hexwalk import hexwalk_rule
     hexwalk_rule(ck, fb)
     reorder_total_rule(ck, fb)
